@@ -186,8 +186,9 @@ class MarkerPlan(Plan):
             self.explanation = ("proof part: the atom-layer operators (groups of ==/!= atoms, merging of two string atoms) never return an atom group with fewer than two values; "
                                 "bounded part: the normal-form predicate on every parse/&/|/only/exclude result of the marker sweep. The fix-point clause of of() (no neutral child, >= 2 children) is not "
                                 "expressible as an inductive invariant (DESIGN section 5, C15) and is covered by the bounded part only.")
-        self.explanation = ("proof part: every path-VC of the listed combinator functions is discharged for all markers / all list lengths / all environments (pointwise ghosts); "
-                            "bounded part: the same meaning contract evaluated on real markers from the atom pool (covers the assumed atom layer). The two together are reported, the bounded part never counted as proved.")
+        else:
+            self.explanation = ("proof part: every path-VC of the listed combinator functions is discharged for all markers / all list lengths / all environments (pointwise ghosts); "
+                                "bounded part: the same meaning contract evaluated on real markers from the atom pool (covers the assumed atom layer). The two together are reported, the bounded part never counted as proved.")
 
     def stages(self, tier, nproc):
         named, functions, crashes, notes = {}, {}, [], []
@@ -438,7 +439,7 @@ def get_plan(pid):
 # (C07: the text means what the marker means [own proof part]; that the re-parsed text *evaluates* so is the parser's contract, C03, over the operator laws, C02.
 #  C14 on markers: corollaries of the C02 operator law.
 #  C02 / C03: the version-atom layer uses the C11 contracts (normalisation, from_specifier, the bridge); C03's fold uses the C02 operator law.)
-PREMISES = {"C04": ["C01"], "C17": ["C06"], "C14": ["C01", "C02"], "C08": ["C05"], "C07": ["C02", "C03"], "C02": ["C11"], "C03": ["C02"]}
+PREMISES = {"C04": ["C01", "C06"], "C17": ["C06"], "C14": ["C01", "C02"], "C08": ["C05"], "C07": ["C02", "C03"], "C02": ["C11"], "C03": ["C02"]}
 
 
 # ---------------------------------------------------------------------------------------------------------------
